@@ -26,11 +26,13 @@ func init() {
 		Rule: "universe = all sequences of length 2 and 3 (thorough: also length 4 over the 8 most interacting changes) over a catalogue of 15 interacting changes (a change that uses the metavariable names of the others as ordinary names, B matches only A's output, duplication, consumption of what a later change needs, no-ops, a change failing with an unbound '+' metavariable, a change whose result alone is unparseable, statement/declaration/import changes; repetitions allowed) x 9 files x packaging {one patch file, repeated -p (same path for a repeated change), -P list, -P list with blank lines and without final newline, stdin, -p mixed with -P, library API}. " +
 			"Differential oracle without model: the combined run's result is canonically identical to the chain of single-change runs, each on the bytes the previous one produced; a failing step makes the combined run exit non-zero and leave the file byte-identical. non-trivial = at least two changes of the history apply in the chain",
 		Assumptions: []string{"histories in which a chain step fails only because its intermediate text does not parse, while the combined run reaches a parseable result, are enumerated but excluded from the verdict"},
-		Bounds:      func(tier string) map[string]any { return map[string]any{"changes": len(c09Order), "max_len": c09MaxLen(tier)} },
-		NewCase:     func() any { return &C09Case{} },
-		Gen:         c09Gen,
-		Setup:       cliSetup,
-		Run:         c09Run,
+		Bounds: func(tier string) map[string]any {
+			return map[string]any{"changes": len(c09Order), "max_len": c09MaxLen(tier)}
+		},
+		NewCase: func() any { return &C09Case{} },
+		Gen:     c09Gen,
+		Setup:   cliSetup,
+		Run:     c09Run,
 	})
 }
 
